@@ -142,8 +142,14 @@ class SSHChannel(log.Logger):
         if self.extBuf:
             b = self.extBuf
             self.extBuf = []
+            # A pending loseConnection() must not close the channel after
+            # the first entry: the entries after it would be dropped.  Try
+            # to close only once all of them have been written again.
+            closing, self.closing = self.closing, 0
             for type, data in b:
                 self.writeExtended(type, data)
+            if closing:
+                self.loseConnection()
 
     def requestReceived(self, requestType, data):
         """
